@@ -28,6 +28,194 @@ struct World {
     defaults: Defaults,
 }
 
+// ------------------------------------------------------------------------------------------------
+// The object-safe adapter of src/collect.rs: `DynCollect`, `Collect for dyn DynCollect`, the blanket
+// `impl DynCollect for T` with its forwarding tracer, and the user-facing `__dyn_collect!` macro.
+// ------------------------------------------------------------------------------------------------
+#[derive(Default)]
+struct DynAdapter {
+    trait_gc_required: bool,   // `Trace::trace_gc` has no default body
+    trait_weak_required: bool, // `Trace::trace_gc_weak` has no default body
+    dyn_collect_body: String,  // body of `<dyn DynCollect as Collect>::trace`, tracer renamed to cc
+    dyn_trace_body: String,    // statements of `dyn_trace` other than the nested items; wrapper renamed to W
+    wrap_gc: String,           // what the forwarding tracer's `trace_gc` does: "gc" | "weak" | "none" | "missing" | "?tokens"
+    wrap_weak: String,
+    wrap_other: Vec<String>,   // any other method the forwarding tracer overrides
+    macro_bodies: Vec<String>, // body of `fn trace` in each rule of `__dyn_collect!`
+}
+
+fn rename_ident(ts: proc_macro2::TokenStream, from: &str, to: &str) -> proc_macro2::TokenStream {
+    use proc_macro2::{Group, Ident, TokenTree};
+    ts.into_iter()
+        .map(|t| match t {
+            TokenTree::Ident(i) if i == from => TokenTree::Ident(Ident::new(to, i.span())),
+            TokenTree::Group(g) => TokenTree::Group(Group::new(g.delimiter(), rename_ident(g.stream(), from, to))),
+            o => o,
+        })
+        .collect()
+}
+
+fn second_arg_name(sig: &syn::Signature) -> Option<String> {
+    match sig.inputs.iter().nth(1) {
+        Some(syn::FnArg::Typed(pt)) => match &*pt.pat {
+            syn::Pat::Ident(pi) => Some(pi.ident.to_string()),
+            _ => None,
+        },
+        _ => None,
+    }
+}
+
+fn block_text(b: &syn::Block, renames: &[(String, &str)]) -> String {
+    let mut ts = proc_macro2::TokenStream::new();
+    for st in &b.stmts {
+        if let syn::Stmt::Item(_) = st {
+            continue;
+        }
+        ts.extend(st.to_token_stream());
+    }
+    for (f, t) in renames {
+        ts = rename_ident(ts, f, t);
+    }
+    compact_str(&ts.to_string())
+}
+
+/// What a forwarding method `fn m(&mut self, p: ..) { self.0.X(p) }` forwards to.
+fn forward_of(f: &syn::ImplItemFn) -> String {
+    let arg = second_arg_name(&f.sig);
+    if f.block.stmts.is_empty() {
+        return "none".into();
+    }
+    if f.block.stmts.len() == 1 {
+        let e = match &f.block.stmts[0] {
+            syn::Stmt::Expr(e, _) => Some(e),
+            _ => None,
+        };
+        if let Some(syn::Expr::MethodCall(mc)) = e {
+            let recv_ok = matches!(&*mc.receiver, syn::Expr::Field(fe)
+                if matches!(&*fe.base, syn::Expr::Path(p) if p.path.is_ident("self"))
+                   && matches!(&fe.member, syn::Member::Unnamed(i) if i.index == 0));
+            let arg_ok = mc.args.len() == 1
+                && matches!(&mc.args[0], syn::Expr::Path(p) if Some(p.path.segments.last().map(|s| s.ident.to_string()).unwrap_or_default()) == arg);
+            if recv_ok && arg_ok && mc.turbofish.is_none() {
+                if mc.method == "trace_gc" {
+                    return "gc".into();
+                }
+                if mc.method == "trace_gc_weak" {
+                    return "weak".into();
+                }
+            }
+        }
+    }
+    format!("?{}", compact_str(&f.block.to_token_stream().to_string()))
+}
+
+fn find_fn_trace_body(ts: proc_macro2::TokenStream, out: &mut Vec<String>) {
+    use proc_macro2::{Delimiter, TokenTree};
+    let t: Vec<TokenTree> = ts.into_iter().collect();
+    let mut i = 0;
+    while i < t.len() {
+        if let (TokenTree::Ident(a), Some(TokenTree::Ident(b))) = (&t[i], t.get(i + 1)) {
+            if a == "fn" && b == "trace" {
+                // the next brace group is the body
+                let mut j = i + 2;
+                while j < t.len() {
+                    if let TokenTree::Group(g) = &t[j] {
+                        if g.delimiter() == Delimiter::Brace {
+                            out.push(compact_str(&g.stream().to_string()));
+                            break;
+                        }
+                    }
+                    j += 1;
+                }
+                i = j;
+                continue;
+            }
+        }
+        if let TokenTree::Group(g) = &t[i] {
+            find_fn_trace_body(g.stream(), out);
+        }
+        i += 1;
+    }
+}
+
+fn read_dyn_adapter(collect_rs: &syn::File, macros: &BTreeMap<String, MacroDef>) -> DynAdapter {
+    let mut d = DynAdapter { wrap_gc: "missing".into(), wrap_weak: "missing".into(), dyn_collect_body: "?not found".into(), dyn_trace_body: "?not found".into(), ..Default::default() };
+    for it in &collect_rs.items {
+        match it {
+            syn::Item::Trait(t) if t.ident == "Trace" => {
+                for ti in &t.items {
+                    if let syn::TraitItem::Fn(f) = ti {
+                        if f.sig.ident == "trace_gc" {
+                            d.trait_gc_required = f.default.is_none();
+                        }
+                        if f.sig.ident == "trace_gc_weak" {
+                            d.trait_weak_required = f.default.is_none();
+                        }
+                    }
+                }
+            }
+            syn::Item::Impl(im) => {
+                let tr = im.trait_.as_ref().and_then(|(_, p, _)| p.segments.last().map(|s| s.ident.to_string())).unwrap_or_default();
+                let self_is_dyn = matches!(&*im.self_ty, syn::Type::TraitObject(to)
+                    if to.bounds.iter().any(|b| matches!(b, syn::TypeParamBound::Trait(tb) if tb.path.segments.last().map(|s| s.ident == "DynCollect").unwrap_or(false))));
+                if tr == "Collect" && self_is_dyn {
+                    for ii in &im.items {
+                        if let syn::ImplItem::Fn(f) = ii {
+                            if f.sig.ident == "trace" {
+                                let cc = second_arg_name(&f.sig).unwrap_or_else(|| "cc".into());
+                                d.dyn_collect_body = block_text(&f.block, &[(cc, "cc")]);
+                            }
+                        }
+                    }
+                }
+                if tr == "DynCollect" {
+                    for ii in &im.items {
+                        if let syn::ImplItem::Fn(f) = ii {
+                            if f.sig.ident != "dyn_trace" {
+                                continue;
+                            }
+                            let cc = second_arg_name(&f.sig).unwrap_or_else(|| "cc".into());
+                            let mut wrapper = String::new();
+                            for st in &f.block.stmts {
+                                if let syn::Stmt::Item(syn::Item::Impl(wi)) = st {
+                                    let wtr = wi.trait_.as_ref().and_then(|(_, p, _)| p.segments.last().map(|s| s.ident.to_string())).unwrap_or_default();
+                                    if wtr != "Trace" {
+                                        continue;
+                                    }
+                                    if let syn::Type::Path(tp) = &*wi.self_ty {
+                                        wrapper = tp.path.segments.last().map(|s| s.ident.to_string()).unwrap_or_default();
+                                    }
+                                    for wii in &wi.items {
+                                        if let syn::ImplItem::Fn(wf) = wii {
+                                            if wf.sig.ident == "trace_gc" {
+                                                d.wrap_gc = forward_of(wf);
+                                            } else if wf.sig.ident == "trace_gc_weak" {
+                                                d.wrap_weak = forward_of(wf);
+                                            } else {
+                                                d.wrap_other.push(wf.sig.ident.to_string());
+                                            }
+                                        } else {
+                                            d.wrap_other.push(compact_str(&wii.to_token_stream().to_string()));
+                                        }
+                                    }
+                                }
+                            }
+                            d.dyn_trace_body = block_text(&f.block, &[(cc, "cc"), (wrapper, "W")]);
+                        }
+                    }
+                }
+            }
+            _ => {}
+        }
+    }
+    if let Some(m) = macros.get("__dyn_collect") {
+        for r in &m.rules {
+            find_fn_trace_body(r.body.clone(), &mut d.macro_bodies);
+        }
+    }
+    d
+}
+
 fn gates_of(attrs: &[syn::Attribute]) -> Vec<String> {
     let mut out = Vec::new();
     for a in attrs {
@@ -444,6 +632,10 @@ fn main() {
             notes: vec![],
         },
     };
+    let dyn_adapter = match files.iter().find(|(n, _, _)| n == "src/collect.rs") {
+        Some((_, f, _)) => read_dyn_adapter(f, &macros),
+        None => DynAdapter::default(),
+    };
     let mut w = World { macros, impls: vec![], notes, defaults };
     let dn = w.defaults.notes.clone();
     w.notes.extend(dn);
@@ -488,6 +680,24 @@ fn main() {
     v.push_str(&format!("Definition trait_default_body : stmt := {}.\n", w.defaults.body.coq()));
     v.push_str("(* default body of `Trace::trace<C>(&mut self, value: &C)`, with the type parameter renamed to C and the argument to value *)\n");
     v.push_str(&format!("Definition trace_default : stmt := {}.\n\n", w.defaults.trace_default.coq()));
+    let fwd = |x: &str| match x {
+        "gc" => "FwdGc".to_string(),
+        "weak" => "FwdWeak".to_string(),
+        "none" => "FwdNone".to_string(),
+        o => format!("(FwdUnknown {})", coq_str(o)),
+    };
+    v.push_str("(* the object-safe adapter of src/collect.rs (DynCollect / dyn_collect!) *)\n");
+    v.push_str(&format!(
+        "Definition dyn_adapter_real : dyn_adapter :=\n  {{| da_trait_gc_required := {}; da_trait_weak_required := {};\n     da_dyn_collect_body := {};\n     da_dyn_trace_body := {};\n     da_wrap_gc := {}; da_wrap_weak := {};\n     da_wrap_other := [{}];\n     da_macro_bodies := [{}] |}}.\n\n",
+        dyn_adapter.trait_gc_required,
+        dyn_adapter.trait_weak_required,
+        coq_str(&dyn_adapter.dyn_collect_body),
+        coq_str(&dyn_adapter.dyn_trace_body),
+        fwd(&dyn_adapter.wrap_gc),
+        fwd(&dyn_adapter.wrap_weak),
+        dyn_adapter.wrap_other.iter().map(|x| coq_str(x)).collect::<Vec<_>>().join("; "),
+        dyn_adapter.macro_bodies.iter().map(|x| coq_str(x)).collect::<Vec<_>>().join("; ")
+    ));
     let mut names = Vec::new();
     for i in &w.impls {
         let n = coq_ident(&i.id);
